@@ -13,9 +13,13 @@ import (
 	"fmt"
 	"sort"
 
+	"math/big"
+
 	"github.com/youchainhq/go-youchain/common"
+	"github.com/youchainhq/go-youchain/core/state"
 	"github.com/youchainhq/go-youchain/core/types"
 	"github.com/youchainhq/go-youchain/crypto/sha3"
+	"github.com/youchainhq/go-youchain/rlp"
 	rtrie "github.com/youchainhq/go-youchain/trie"
 	"github.com/youchainhq/go-youchain/youdb"
 	"verif/harness/drive"
@@ -119,6 +123,8 @@ type world struct {
 	db     *rtrie.Database
 	h      handle
 	roots  []common.Hash
+	kept   [][]byte       // slices returned by Get at the previous step, retained as returned ...
+	keptCp [][]byte       // ... and copies of their content at that time
 	tkeys  [][]byte       // key id-1 -> key as stored in the trie (hashed for the secure variant)
 	byTKey map[string]int // stored key -> key id
 }
@@ -166,26 +172,50 @@ func (w *world) view() handle {
 }
 
 func readAll(h handle) ([]int, string) {
+	out, _, errs := readAllRaw(h)
+	return out, errs
+}
+
+func readAllRaw(h handle) ([]int, [][]byte, string) {
 	out := make([]int, len(keyNibs))
+	var raw [][]byte
 	for id := 1; id <= len(keyNibs); id++ {
 		v, err := h.TryGet(keyBytes(id))
 		if err != nil {
-			return nil, err.Error()
+			return nil, nil, err.Error()
 		}
 		out[id-1] = valID(v)
+		if len(v) > 0 {
+			raw = append(raw, v)
+		}
 	}
-	return out, ""
+	return out, raw, ""
 }
 
 func (w *world) observe() map[string]interface{} {
 	obs := map[string]interface{}{}
+	// values returned by Get one step ago (retained as returned, the trie shares them with its nodes): they must still read
+	// what they read then, whatever the action in between did
+	if len(w.kept) > 0 {
+		changed := 0
+		for i := range w.kept {
+			if !bytes.Equal(w.kept[i], w.keptCp[i]) {
+				changed++
+			}
+		}
+		obs["alias"] = []int{len(w.kept), changed}
+	}
 	v := w.view()
-	get, errs := readAll(v)
+	get, raw, errs := readAllRaw(v)
 	if errs != "" {
 		obs["geterr"] = errs
 		get = []int{}
 	}
 	obs["get"] = get
+	w.kept, w.keptCp = raw, nil
+	for _, b := range raw {
+		w.keptCp = append(w.keptCp, common.CopyBytes(b))
+	}
 	it := rtrie.NewIterator(w.view().NodeIterator(nil))
 	iter := [][]int{}
 	var pairs []pair
@@ -245,6 +275,15 @@ func (p *orderedPutter) Put(key, value []byte) error {
 	return nil
 }
 
+// retainingPutter keeps the slices it is handed WITHOUT copying them, exactly like core/state.proofList (the sink of
+// StateDB.GetProof / GetStorageProof): a producer that reuses a scratch buffer corrupts what such a sink holds.
+type retainingPutter struct{ blobs [][]byte }
+
+func (p *retainingPutter) Put(key, value []byte) error {
+	p.blobs = append(p.blobs, value)
+	return nil
+}
+
 // proofSet is the verifier's lookup table, built by hashing the blobs (as a light client does).
 type proofSet map[string][]byte
 
@@ -294,6 +333,21 @@ func (w *world) prove(k int, masks int, ev map[string]interface{}) {
 	ev["plen"] = lens
 	// VerifyProof takes the key as stored in the trie
 	ev["res"] = verify(root, tkey, p.blobs)
+	// the same proof into a sink that retains the slices: verified after Prove returned, and again after a second Prove on
+	// the same trie (for the next key of the table) -- which is verified from its own retaining sink as well
+	r1, r2 := &retainingPutter{}, &retainingPutter{}
+	k2 := k%len(keyNibs) + 1
+	ret := map[string]interface{}{"k2": k2}
+	if err := w.h.Prove(tkey, 0, r1); err != nil {
+		ret["err"] = err.Error()
+	}
+	ret["res"] = verify(root, tkey, r1.blobs)
+	if err := w.h.Prove(w.tkeys[k2-1], 0, r2); err != nil {
+		ret["err"] = err.Error()
+	}
+	ret["again"] = verify(root, tkey, r1.blobs)
+	ret["res2"] = verify(root, w.tkeys[k2-1], r2.blobs)
+	ev["ret"] = ret
 	if masks == 0 {
 		return
 	}
@@ -473,6 +527,139 @@ func runVectors(env *drive.Env) {
 	}
 }
 
+// runStateProofs goes the production route of proofs: StateDB.GetProof / GetStorageProof, whose sink (proofList) retains the
+// slices Prove hands it.  A light client's flow: verify the account proof against the state root, take the storage root
+// out of the proven account, verify the storage proof against it.  Every proof is verified after the call returned and
+// again after the NEXT proof was produced from the same state.
+func runStateProofs(env *drive.Env) {
+	sdb := state.NewDatabase(youdb.NewMemDatabase())
+	st, err := state.New(common.Hash{}, common.Hash{}, common.Hash{}, sdb)
+	if err != nil {
+		panic(err)
+	}
+	addr := func(i int) common.Address { return common.BytesToAddress([]byte{0xd0, byte(i)}) }
+	slot := func(i int) common.Hash { return common.BigToHash(big.NewInt(int64(i))) }
+	word := func(i int) common.Hash { return common.BytesToHash(bytes.Repeat([]byte{byte(0x30 + i)}, 32)) }
+	for a := 1; a <= 5; a++ {
+		st.AddBalance(addr(a), big.NewInt(int64(100+a)))
+	}
+	for s := 1; s <= 4; s++ {
+		st.SetState(addr(2), slot(s), word(s))
+	}
+	root, vr, sr, err := st.Commit(true)
+	if err != nil {
+		panic(err)
+	}
+	st, err = state.New(root, vr, sr, sdb)
+	if err != nil {
+		panic(err)
+	}
+	// account proofs: addresses 1..5 exist, 6..7 do not
+	acct := func(a int) (int, common.Hash, [][]byte) {
+		proof, err := st.GetProof(addr(a))
+		if err != nil {
+			return -1, common.Hash{}, proof
+		}
+		return acctCode(root, addr(a), proof, int64(100+a)), acctRoot(root, addr(a), proof), proof
+	}
+	type pending struct {
+		kind     string
+		id, want int
+		res, n   int
+		reverify func() int
+	}
+	var last *pending
+	flush := func() {
+		if last != nil {
+			ev := map[string]interface{}{"ev": "StateProof", "kind": last.kind, "id": last.id, "want": last.want, "res": last.res,
+				"again": last.reverify(), "nodes": last.n}
+			env.Emit(ev)
+			last = nil
+		}
+	}
+	var storageRoot common.Hash
+	for a := 1; a <= 7; a++ {
+		want := 0
+		if a <= 5 {
+			want = 1
+		}
+		res, sroot, proof := acct(a)
+		flush() // the previous proof is verified again now that another one has been produced
+		aa, pp := a, proof
+		last = &pending{"account", a, want, res, len(proof), func() int { return acctCode(root, addr(aa), pp, int64(100+aa)) }}
+		if a == 2 {
+			storageRoot = sroot
+		}
+	}
+	for s := 1; s <= 6; s++ {
+		want := 0
+		if s <= 4 {
+			want = 1
+		}
+		proof, err := st.GetStorageProof(addr(2), slot(s))
+		res := -1
+		if err == nil {
+			res = slotCode(storageRoot, slot(s), proof, word(s))
+		}
+		flush()
+		ss, pp := s, proof
+		last = &pending{"storage", s, want, res, len(proof), func() int { return slotCode(storageRoot, slot(ss), pp, word(ss)) }}
+	}
+	// one more proof so that the last storage proof is re-verified after it
+	st.GetProof(addr(1))
+	flush()
+}
+
+func proofValue(root common.Hash, key []byte, proof [][]byte) (val []byte, code int) {
+	defer func() {
+		if p := recover(); p != nil {
+			val, code = nil, -2
+		}
+	}()
+	v, _, err := rtrie.VerifyProof(root, keccak(key), mkSet(proof))
+	if err != nil {
+		return nil, -1
+	}
+	if len(v) == 0 {
+		return nil, 0
+	}
+	return v, 1
+}
+
+// acctCode: 1 the proof verifies to the account with the expected balance, 0 to absence, 2 to something else, -1 error.
+func acctCode(root common.Hash, a common.Address, proof [][]byte, balance int64) int {
+	v, code := proofValue(root, a.Bytes(), proof)
+	if code != 1 {
+		return code
+	}
+	var acc state.Account
+	if err := rlp.DecodeBytes(v, &acc); err != nil || acc.Balance == nil || acc.Balance.Int64() != balance {
+		return 2
+	}
+	return 1
+}
+
+func acctRoot(root common.Hash, a common.Address, proof [][]byte) common.Hash {
+	v, code := proofValue(root, a.Bytes(), proof)
+	var acc state.Account
+	if code == 1 && rlp.DecodeBytes(v, &acc) == nil {
+		return acc.Root
+	}
+	return common.Hash{}
+}
+
+func slotCode(sroot common.Hash, s common.Hash, proof [][]byte, want common.Hash) int {
+	v, code := proofValue(sroot, s.Bytes(), proof)
+	if code != 1 {
+		return code
+	}
+	enc, _ := rlp.EncodeToBytes(bytes.TrimLeft(want.Bytes(), "\x00"))
+	if !bytes.Equal(v, enc) {
+		return 2
+	}
+	return 1
+}
+
 func run(env *drive.Env) error {
 	var beh Beh
 	first := true
@@ -483,6 +670,7 @@ func run(env *drive.Env) error {
 		}
 		if beh.Kind == "vectors" {
 			runVectors(env)
+			runStateProofs(env)
 			beh = Beh{}
 			continue
 		}
